@@ -53,10 +53,16 @@ def gen_one(rng, tier, scale=False):
         prios = list(range(-6, 7)) + [0, 0, 100, -100, 2 ** 40]
     ops = []
     enabled = True
+    extreme = [0]
     for _ in range(rng.randint(2, 40 if big else 20) if not scale else 220):
         k = rng.random()
         if k < 0.45:
             prio = rng.choice(prios) if rng.random() < 0.6 else None
+            if scale and rng.random() < 0.12:
+                # a new global minimum / maximum (lands at either end of a
+                # long list)
+                extreme[0] += 1
+                prio = rng.choice([-1000 - extreme[0], 1000 + extreme[0]])
             reuse = rng.randrange(6) if rng.random() < 0.2 else None
             act = None
             if rng.random() < 0.12:
@@ -77,7 +83,7 @@ def gen_one(rng, tier, scale=False):
 
 
 def gen_cases(tier, seed):
-    for i in range(2 if tier == 'quick' else 32):
+    for i in range(5 if tier == 'quick' else 48):
         yield gen_one(random.Random(f'C07/scale/{seed}/{tier}/{i}'), tier,
                       scale=True)
     n = 6000 if tier == 'quick' else 16 * 10000
